@@ -202,14 +202,14 @@ class CameraViewPort:
             raise TypeError(
                 f"origin must be a {VEC2I.btype.shape} if it is a numpy array"
             )
-        elif isinstance(origin, list) or isinstance(origin, tuple) and len(origin) != 2:
+        elif isinstance(origin, (list, tuple)) and len(origin) != 2:
             raise TypeError("origin must be of length 2 if it is a list or tuple")
 
         if isinstance(size, np.ndarray) and size.shape != VEC2I.btype.shape:
             raise TypeError(
                 f"size must be a {VEC2I.btype.shape} if it is a numpy array"
             )
-        elif isinstance(size, list) or isinstance(size, tuple) and len(size) != 2:
+        elif isinstance(size, (list, tuple)) and len(size) != 2:
             raise TypeError("size must be of length 2 if it is a list or tuple")
 
         self.origin = origin
